@@ -58,8 +58,8 @@ def replay_remove_quotes(rep):
 
 def run(rep):
     from contracts import sql as csql
-    from contracts.grouping import JOINER_SHAPE_CASES
-    return _run(rep, csql, JOINER_SHAPE_CASES)
+    from contracts.grouping import JOINER_SHAPE_CASES, DECORATED_SHAPE_CASES
+    return _run(rep, csql, list(JOINER_SHAPE_CASES) + list(DECORATED_SHAPE_CASES))
 
 
 def _run(rep, csql, joiner_cases):
